@@ -873,11 +873,12 @@ AUDITED_PRE_ACK_EXITS = {
 }
 
 
-@rule("C05.8", ["C05", "C06", "C01", "C02"], ["E7", "E2"], "a packet's acknowledgement and window are discarded only for the audited reasons",
+@rule("C05.8", ["C05", "C06", "C01", "C02", "C07"], ["E7", "E2"], "a packet's acknowledgement and window are discarded only for the audited reasons",
       "Every packet of the conversation carries ack_nr, a selective ACK and the peer's window, whatever else it is (a duplicate, a retransmission, out of order). process_incoming_message takes them "
       "in - remove_up_to_ack, recovery.on_ack, last_remote_window, congestion_controller.set_remote_window - after the state-machine match; the Ok exits that precede remove_up_to_ack are the packets "
       "dropped whole. The discriminant dataflow gives each such exit its (states, packet types); the set must equal the audited table (RESET acking our FIN, stray SYN, wrong handshake ack, FIN out "
-      "of sequence, data beyond the remote FIN). A new early exit - a 'fast path' for duplicate ST_DATA - silently ignores window reductions (C05) and acknowledgements (C06: acked data retransmitted).")
+      "of sequence, data beyond the remote FIN). A new early exit - a 'fast path' for duplicate ST_DATA - silently ignores window reductions (C05) and acknowledgements (C06: acked data retransmitted); "
+      "the immediate-ACK triggers (duplicate, out of order, FIN: C07.3) also sit after the match, so a packet dropped whole is not answered at once either (C07: a retransmitted FIN stays unanswered until a timer).")
 def c05_8(R):
     b = R.body(PIM)
     dt = DiscrTracker(b, enums={SE, "raw::Type"})
